@@ -98,8 +98,14 @@ def step (st : St) (l : Line) : St × Verdict :=
         let exId := if ex = "-" then none else idOf ex
         some ([.record m (one == "1") exId], st)
       | "flood", _ => some ([], st)
-      | "cutburst", [n, m, cnt] => (idOf n).map fun id =>
-          ([HubOp.fail id] ++ (List.range (cnt.toNat?.getD 0)).map (fun i => HubOp.record s!"{m}.{i}" false none) ++ [HubOp.leave id], st)
+      | "slowreplay", [n, u, rm, ln, m, cnt, _kb] =>
+        -- the replay of a newcomer is the log as it stood when it logged in, whatever happens to the log while it is under way
+        (idOf rm).map fun rid =>
+          let nid := st.names.length
+          ((List.range (cnt.toNat?.getD 0)).map (fun i => HubOp.record s!"{m}.{i}" false none) ++ [.connect nid, .login nid u, .lRemove rid ln],
+           { st with names := st.names ++ [n] })
+      | "cutburst", [ns, m, cnt] => ((ns.splitOn "+").mapM idOf).map fun ids =>
+          (ids.map HubOp.fail ++ (List.range (cnt.toNat?.getD 0)).map (fun i => HubOp.record s!"{m}.{i}" false none) ++ ids.map HubOp.leave, st)
       | "burst", [m, g, cnt] =>
           some ((List.range (g.toNat?.getD 0)).flatMap (fun gi => (List.range (cnt.toNat?.getD 0)).map fun i => HubOp.record s!"{m}.{gi}.{i}" false none), st)
       | "chat", [n, m] => (idOf n).map fun id => ([.chat id m], st)
@@ -140,6 +146,29 @@ def step (st : St) (l : Line) : St × Verdict :=
           match adoptOrder k after obsRetList with
           | some h' => ({ st2 with hub := h' }, .ok)
           | none => (st2, .diff s!"retained={csv wantLog}")
+      else if op == "slowreplay" then
+        -- the newcomer's replay is the log as it stood when it logged in - every retained event once, in order, then the live
+        -- sessions - while the removal's live broadcast (sent frame by frame by another goroutine) may land anywhere in it
+        match args with
+        | [n, _, _, ln, _, _, _] =>
+          let nid := st.names.length
+          let live := render k (.lRemove ln)
+          let wantNew := newFor k before after nid
+          let gotNew := (framesOf n l.impl).getD []
+          let strip := fun (fs : List String) => fs.filter (· ≠ live)
+          if strip gotNew ≠ strip wantNew then
+            (st2, .specFail "C11.replay" s!"{n} logged in while the log was long and a listener was removed meanwhile: it received {gotNew.length} frames; without the removal's own broadcast they should be the success answer, the {before.retained.length}+ retained events in order and the live sessions, each once (first difference at frame {((strip gotNew).zip (strip wantNew)).findIdx fun (a, b) => a ≠ b})")
+          else if gotNew.count live ≠ wantNew.count live then
+            (st2, .specFail "C11.broadcast" s!"{n} received the removal of {ln} {gotNew.count live} time(s), expected {wantNew.count live}")
+          else
+            let mism := (List.range st.names.length).find? fun id =>
+              !st.stalled.contains id && (framesOf (st2.names.getD id "") l.impl).getD [] ≠ newFor k before after id
+            match mism with
+            | some id => (st2, .diff s!"{st2.names.getD id ""}={csv (newFor k before after id)}")
+            | none =>
+              if obsRetList ≠ after.retained.map (render k) then (st2, .diff s!"retained={csv (after.retained.map (render k))}")
+              else (st2, .ok)
+        | _ => (st2, .bad "slowreplay")
       else if op == "flood" then
         -- stalled operators are dropped by the write deadline at a point the model does not fix:
         -- every healthy operator must still have received every flood event, in order
@@ -152,11 +181,27 @@ def step (st : St) (l : Line) : St × Verdict :=
           -- the stalled ones are gone now
           let hub' := st.stalled.foldl (fun h id => hubStep (hubStep h (.fail id)) (.leave id)) before
           let st3 := { st2 with hub := hub', stalled := [] }
+          -- besides the flood events a healthy operator is told once, per dropped operator, that it has disconnected - nothing else
+          let offs := st.stalled.filterMap fun id => match before.stateOf id with
+            | some (.authed u) => some (render k (.userOff u))
+            | _ => none
+          let extraBad := healthy.findSome? fun id =>
+            let got := (framesOf (st.names.getD id "") l.impl).getD []
+            let extras := got.filter fun t => !want.contains t
+            if extras.all offs.contains && offs.all (fun o => extras.count o == offs.count o) then none
+            else some (id, extras)
           match bad with
           | some id => (st3, .specFail "C11.broadcast" s!"{st.names.getD id ""} is healthy but did not receive all {n} events broadcast while another operator was stalled")
           | none =>
-            if obsRetList ≠ hub'.retained.map (render k) then (st3, .diff s!"retained={csv (hub'.retained.map (render k))}")
-            else (st3, .ok)
+            if let some (id, extras) := extraBad then
+              -- a frame that arrived twice, or one nobody sent, is not a matter of waiting longer; a missing one may be
+              let tooMany := extras.any fun t => extras.count t > offs.count t
+              (st3, .specFail (if tooMany then "C11.duplicate-frame" else "C11.broadcast") s!"{st.names.getD id ""} is healthy; while {st.stalled.length} stalled operator(s) were dropped it received, besides the {n} events, {csv extras} - expected exactly {csv offs} (one frame per event)")
+            else
+            -- (several stalled operators are dropped in an order the model does not fix: the log is adopted when it differs by order only)
+            match adoptOrder k hub' obsRetList with
+            | some h'' => ({ st3 with hub := h'' }, .ok)
+            | none => (st3, .diff s!"retained={csv (hub'.retained.map (render k))}")
         | _ => (st2, .bad "flood")
       else
         -- Spec clauses, stated on what the implementation did
